@@ -25,6 +25,10 @@ func init() {
 			"no PUT /trash or /pull with a non-empty list reaches any stub and Run returns an error; other request types recorded only; distinct = (request type, mode, outcome, commit). " +
 			"(c/delay) stream failstop-delay: scenario with 30-50 collections; every index fetch x mode x 3 (6 thorough) repetitions is failed under PRNG-chosen injected delays " +
 			"(Balancer logger whose calls sleep: 20-100 ms for 3/4 of the entries reporting a problem, 1-6 ms for 1/2 of the debug entries, 1-30 ms for 1/8 of the others; collection pages 1-8 ms; the failing keepstore answers after 3-90 ms), same oracle. " +
+			"(a/redirect) stream paging-redirect: a paging history (N>=1) in which the k-th page request (k drawn in 1..expected pages+1) is answered with HTTP 301/302/303/307/308 whose target is a failing page (503 html), " +
+			"a well-formed empty answer, a dead port, or absent (no Location header); the scan uses the http client the product uses (arvados.NewClientFromConfig: no explicit http.Client, default secure/insecure client drawn); same oracle as (a), " +
+			"except that a scan whose client followed the redirect to the well-formed empty answer is not judged; distinct = (N class, page vs. tie, mutation load, form, first/later page, status, target, followed or not, client, outcome). " +
+			"(c/redirect) in stream failstop every numbered request is additionally answered once with a redirect (judged request types: each of the 4 targets, status and default client drawn; other types: one drawn target), same oracle as (c), same exception. " +
 			"The list model implements filters, order, limit, offset, count, select, distinct, include_trash, include_old_versions (1/6 of the rows trashed, 1/6 past versions; both count as existing); any other parameter ⇒ inconclusive",
 		Assume: []string{
 			"the API server orders uuid bytewise and returns modified_at as RFC3339 UTC ('Z'), as the model does",
@@ -32,6 +36,7 @@ func init() {
 			"a server never answers a list request with zero items while matching rows exist (short pages contain at least one row)",
 			"HTTP transport without connection reuse (no transparent retry of a failed request)",
 			"Directory volumes on the local filesystem",
+			"a redirect answer that the client follows to a target serving a well-formed 200 answer (empty list / empty index) is the endpoint answering with zero items while rows exist: excluded like any other lying server; a 3xx answer that is not followed, or whose target fails, is a failed fetch",
 			"injected delays (sleeps in the log sink and in the stub servers) change timing only; they never alter a response or a verdict rule",
 		},
 	})
